@@ -30,6 +30,29 @@ def run(ctx: Ctx) -> None:
     ctx.not_decided += ['invariance of the optimiser outcome under renaming (numerical)']
     ord_pack(ctx, 'C03.R1')
     ctx.floor('C03.R1', 17)
+    # the rules above read the name vectors where they are stored; a vector changed in place afterwards (sorted with another key,
+    # reversed, an element inserted or removed) no longer has the order that was established: the verdict is left open
+    CHANGERS = ('sort', 'reverse', 'insert', 'pop', 'remove', 'append', 'extend', 'clear', '__setitem__', '__delitem__')
+    NAMEVEC = re.compile(r'(?:^|\.)(?:betaNames|(?:free_betas|fixed_betas|elementary_expressions)\.names)$')
+    changed = []
+    for g in prog.all_functions():
+        for n in walk_no_nested(g.node):
+            recv = None
+            if isinstance(n, ast.Call) and isinstance(n.func, ast.Attribute) and n.func.attr in CHANGERS:
+                recv = n.func.value
+                if isinstance(recv, ast.Name) and recv.id == 'list' and n.args:
+                    recv = n.args[0]  # list.sort(x)
+            elif isinstance(n, (ast.Assign, ast.AugAssign, ast.Delete)):
+                for t_ in (n.targets if isinstance(n, (ast.Assign, ast.Delete)) else [n.target]):
+                    if isinstance(t_, ast.Subscript):
+                        recv = t_.value  # x[i] = v, del x[i]
+            if recv is not None and NAMEVEC.search(unparse(inline_locals(g.node, recv))):
+                changed.append((g, n))
+    for g, n in changed:
+        ctx.add('C03.R1', f'{g.qualname}:in-place:{unparse(n)[:40]}', None, (g.file, n.lineno),
+                f'{unparse(n)[:80]} changes a vector of parameter names in place after it was stored in the canonical order: the order it has afterwards is not followed', unparse(n)[:80])
+    if not changed:
+        ctx.add('C03.R1', 'name-vectors:in-place', True, prog.cls('results', 'RawResults'), 'no vector of parameter names (betaNames, free_betas.names, fixed_betas.names) is changed in place', '')
 
     from ..pattern import body_is, has
 
